@@ -1,6 +1,7 @@
 // ---------- shim: the process interface of the runtime (argv, environment, cwd, exit) ----------
+pub open spec fn penv(p: ProcState, k: Seq<char>) -> Option<Seq<char>> { if p.env.contains_key(k) { Some(p.env[k]) } else { None } }
 impl World {
-    pub open spec fn env_of(&self, k: Seq<char>) -> Option<Seq<char>> { if self.proc@.env.contains_key(k) { Some(self.proc@.env[k]) } else { None } }
+    pub open spec fn env_of(&self, k: Seq<char>) -> Option<Seq<char>> { penv(self.proc@, k) }
     // std::env::var: Ok(value) iff the variable is set (and unicode; non-unicode values are outside the model)
     #[verifier::external_body]
     pub fn env_var(&mut self, k: &str) -> (r: Result<String, VarError>)
@@ -24,3 +25,11 @@ impl ArgsIter {
     #[verifier::external_body]
     pub fn collect(self) -> (r: Vec<String>) ensures r@.len() == self.a@.len(), forall|i: int| 0 <= i < r@.len() ==> (#[trigger] r@[i])@ == self.a@[i] { unimplemented!() }
 }
+// slice::first / Path::new / Option::and_then / Result::inspect_err as the runtime uses them
+impl PathBuf {
+    #[verifier::external_body]
+    pub fn new<'a>(a: &'a String) -> (r: &'a Path) ensures r@ == path_of_text(a@) { unimplemented!() }
+}
+pub assume_specification<T, E, F: FnOnce(&E)>[ Result::<T, E>::inspect_err ](r: Result<T, E>, f: F) -> (o: Result<T, E>)
+    requires r matches Err(e) ==> f.requires((&e,)),
+    ensures o == r;
